@@ -397,6 +397,16 @@ func genDocSpec(rt *rapid.T, want int) *docSpec {
 			s.Files[k] = genFile(rt, k)
 		}
 	}
+	// the mechanism under test mostly gets the file it needs
+	if want == 1 && rapid.IntRange(0, 9).Draw(rt, "need14") != 0 && s.Files[kDG14] == nil {
+		s.Files[kDG14] = genFile(rt, kDG14)
+	}
+	if want == 2 && rapid.IntRange(0, 9).Draw(rt, "needcs") != 0 {
+		s.Files[kCardSecurity] = append([]byte{}, genuine[kCardSecurity]...)
+	}
+	if want == 4 && rapid.IntRange(0, 9).Draw(rt, "need15") != 0 && s.Files[kDG15] == nil {
+		s.Files[kDG15] = genFile(rt, kDG15)
+	}
 	has := func(bit int) bool {
 		if want&bit != 0 {
 			return rapid.IntRange(0, 9).Draw(rt, "hev") != 0
